@@ -9,7 +9,9 @@ open Lean
 def isInternalName (n : Name) : Bool :=
   n.isInternal || n.components.any fun c =>
     let s := c.toString
-    s.startsWith "_" || s.startsWith "match_" || s.startsWith "proof_" || s == "eq_1" || s.startsWith "eq_def"
+    s.startsWith "_" || s.startsWith "match_" || s.startsWith "proof_" || s.startsWith "eq_def" ||
+    (s.startsWith "eq_" && (s.drop 3).all Char.isDigit) || s.startsWith "induct" || s.startsWith "fun_cases" ||
+    s.startsWith "congr_simp" || s.startsWith "sizeOf_spec" || s.startsWith "injEq" || s.startsWith "noConfusion"
 
 unsafe def run (args : List String) : IO UInt32 := do
   initSearchPath (← findSysroot)
